@@ -25,6 +25,7 @@ def bounds(tier):
             "packing": f"all sequences of 1..{4 if q else 6} items over 0..6 (B=6) for ff/bf/ffd/bfd/bc; multisets of 1..{6 if q else 8} items over 1..10 (B=20) for bc/ffd/bfd",
             "big": "partition values {0,1,2**24+1,2**31+1,2**32+3,2**40+5} 1..4(5) items k=2..3; packing B=2**32 sequences of 1..3(4) over {1,2**31-1,2**31,2**31+1,2**32-1,2**32}; covering B=2**32 with letters next to B/3, B/2",
             "halves": "multiples of 1/2: partition multisets of 1..4(5) items over (0.5,1,1.5,2.5,3) k=2..3; packing sequences of 1..3(4) over (0.5,..,4.5) B=5; covering multisets of 1..4(5), B=5",
+            "magnitude for the heuristics": "offset letters for b in {1e5, 1e6}, 5..6(7) items, and 6..7(8) items over nine three-digit values; greedy/roundrobin/multifit/kk, k=2..3, all formats",
             "long": "9..15(24) items over {1,2}, 9..12(16) over {1,2,3}, 9..11(13) over {0,1,5},{2,3,7}, non-sorted: simple partitioners + cg (k=2,3,n+1), 5 packers and 3 covers with B=2*max+1",
             "covering": f"multisets of 1..{5 if q else 7} items over 1..13 (B=10) and 1..9 (B=6)"}
 
@@ -53,6 +54,10 @@ def tasks(tier):
         ts.append(("covering", ch, 2 ** 32))
     for ch in spaces.chunked(scopes.long_thin_multisets(tier), 40):
         ts.append(("long", ch, None))
+    for ch in spaces.chunked(scopes.offset_multisets(5, 6 if q else 7, scopes.OFFSET_BASES[:2]), 60):
+        ts.append(("offset-simple", ch, (2, 3)))
+    for ch in scopes.chunk_multisets((164, 276, 290, 298, 547, 585, 618, 678, 701), 6, 7 if q else 8, 60):
+        ts.append(("offset-simple", ch, (2, 3)))
     # values that are not integers (multiples of 1/2, exact in every format): a presentation must not round them
     for ch in scopes.chunk_multisets((0.5, 1, 1.5, 2.5, 3), 1, 4 if q else 6, 25):
         ts.append(("partition", ch, (2, 3)))
@@ -106,7 +111,12 @@ def run_task(task):
     for it in chunk:
         items = list(it)
         nt = len(set(items)) >= 2
-        if scope.startswith("partition"):
+        if scope == "offset-simple":
+            for k in size:
+                for algo in scopes.SIMPLE_PARTITIONERS:
+                    acc.point(nontrivial=nt)
+                    _five(acc, {"algo": algo, "items": list(scopes.scramble(it)), "k": k, "kw": {}}, judge_partition, allow_fewer=(algo == "multifit"))
+        elif scope.startswith("partition"):
             for k in size:
                 for algo, kw in _part_cfgs(len(items), k, scope):
                     if algo == "rnp" and k >= 6: continue
